@@ -4,7 +4,7 @@ sys.path.insert(0, os.path.join(os.path.dirname(os.path.abspath(__file__)), ".."
 sys.path.insert(0, os.path.dirname(os.path.abspath(__file__)))
 import harness
 from harness import Failure
-from chartcase import crash_signature
+from chartcase import crash_signature, crash_excerpt
 from worker import WorkerCrash, WorkerHang
 from hypothesis import strategies as st
 
@@ -12,7 +12,7 @@ PROPERTY = "C11"
 LEVEL = "exploration"
 RULE = ("cases = (parent chart with 1-2 <invoke type=scxml> in one state, child charts, timed script, schedule): each child finishes "
         "early (eventless to its top-level final), late (delayed self-send of 5-60 ms) or never; it sends 0-3 events to #_parent on "
-        "entry, echoes x.<n> events it gets via #_<invokeid>, optionally holds a delayed send to #_parent; the parent leaves the "
+        "entry, echoes x.<n> events it gets via #_<invokeid>, optionally holds a delayed send to #_parent, optionally invokes a never-finishing session of its own (three levels); the parent leaves the "
         "invoking state at a generated time (never / to a sibling / external self-transition = exit + re-entry in one microstep / to "
         "its top-level final), optionally comes back (same id re-invoked), reacts to done.invoke by staying or moving; autoforward "
         "and <finalize> per invoke; real threads (one per child, timer threads), interleaving perturbed at the USCXML_VERIF points "
@@ -22,20 +22,21 @@ RULE = ("cases = (parent chart with 1-2 <invoke type=scxml> in one state, child 
         "only for an inactive invoke of an active state, beforeUninvoking only for an active one, every exit of the invoking state "
         "is followed by exactly one uninvoke before the macrostep ends, every macrostep ends with all invokes of active states "
         "started; (2) #done.invoke.<id> processed by the parent <= #child instances that entered their top-level final, and >= "
-        "those that did so well (60 ms) before being cancelled; (3) no record of a child session after its afterUninvoking, and no "
+        "those that did so well (150 ms) before being cancelled; (3) no record of a child session after its afterUninvoking, and no "
         "delayed child event due after that is ever processed by the parent; (4) events from a child carry its invokeid and origin, "
-        "arrive at most once and in the child's send order, and exactly once when sent 60 ms before anything ended; #_<id> events "
+        "arrive at most once and in the child's send order, and exactly once when the send completed before a sentinel event was fed that the "
+        "parent processed (FIFO, no timing); #_<id> events "
         "reach only that child, in order, at most once; autoforwarded externals are, per child, an in-order duplicate-free "
         "sub-sequence of what the parent processed while the invoke was active, and nothing reaches a child without autoforward; "
         "(5) <finalize> content is executed exactly for the events with that invokeid while the invoke is active, before the "
         "transition for the event is taken; (6) no crash, no deadlock (30 s watchdog), destruction < 2 s. non-trivial = the invoking "
         "state was exited while a child was alive and >= 1 event went each way; distinct = hash(case)")
-ASSUMPTIONS = ["timing enters only as generous margins for 'must have arrived' clauses (60 ms); at-most-once / order / after-cancel clauses "
+ASSUMPTIONS = ["timing enters only as generous margins (150 ms) for the 'must have arrived' clauses of done.invoke, #_<id> and autoforward; child->parent uses a FIFO sentinel; at-most-once / order / after-cancel clauses "
                "use the trace order, which the recording lock makes total",
                "the chart family is parametric (not arbitrary chart pairs): the property's clauses concern the invoke machinery, which "
                "the family exercises in all combinations of child life-time x parent exit time x traffic"]
 BUILDS = (("san", ["worker"]),)
-MARGIN_US = 60000
+MARGIN_US = 150000
 
 
 def budget(tier):
@@ -63,8 +64,13 @@ def child_doc(k, c, xnames):
         trans += '<transition event="tick" target="cf" vid="%s_tt"/>' % p
     elif c["mode"] == "early":
         trans += '<transition target="cf" vid="%s_te"/>' % p
-    return ('<scxml %s name="child%d"><state id="c0" vid="%s_c0"><onentry>%s</onentry>%s</state><final id="cf" vid="%s_cf"/></scxml>'
-            % (NS, k, p, onentry, trans, p))
+    grand = ""
+    if c.get("grandchild"):
+        # the child invokes a session of its own that never finishes: cancelling the child has to tear down both
+        grand = ('<invoke vid="%s_ginv" id="g%d" type="scxml"><content><scxml %s name="grand%d"><state id="g0" vid="g%d_g0">'
+                 '<transition event="never" vid="g%d_t"/></state></scxml></content></invoke>' % (p, k, NS, k, k, k))
+    return ('<scxml %s name="child%d"><state id="c0" vid="%s_c0"><onentry>%s</onentry>%s%s</state><final id="cf" vid="%s_cf"/></scxml>'
+            % (NS, k, p, onentry, grand, trans, p))
 
 
 def xnames_for(case, k):
@@ -118,11 +124,18 @@ def script_for(case):
     return lines
 
 
+def until_for(case):
+    lines = script_for(case)
+    last = max([t for t, _ in lines] + [0])
+    lifetimes = [c["D"] for c in case["children"] if c["mode"] == "late"] + [c["late"] for c in case["children"] if c["late"] is not None]
+    return max([last] + lifetimes) + 260
+
+
 def call(ctx, *args):
     try:
         return ctx.worker().call(*args, timeout=30)
     except WorkerCrash as e:
-        raise Failure("crash", {"stderr": e.stderr[-3000:], "signature": crash_signature(e.stderr)})
+        raise Failure("crash", {"stderr": crash_excerpt(e.stderr), "signature": crash_signature(e.stderr)})
     except WorkerHang:
         raise Failure("deadlock-or-hang", {"signature": "hang"})
 
@@ -154,6 +167,7 @@ def check_trace(case, tr, end_ts):
     p0_active = False
     pending_cancel = {}
     sessions = {}             # session id -> Inst
+    ignored = set()
     parent_end_ts = end_ts
     parent_events = []        # (pos, name, invokeid, origin, ts)
     fin_runs = {k: [] for k in insts}
@@ -214,23 +228,23 @@ def check_trace(case, tr, end_ts):
                 fin_runs[int(e[1][3:])].append(pos)
         else:
             sid = sess[1:]
+            if sid in ignored:
+                continue
             inst = sessions.get(sid)
             if inst is None:
-                # attribute the session to the newest instance of the child with this vid prefix
+                # attribute the session to the newest instance of the child with this vid prefix; the first records of a
+                # session (bm, be #root) carry no vid and are skipped
                 vid = e[1] if k0 not in ('ev', 'bm', 'am', 'stable', 'bcomp', 'acomp') else None
+                if vid is not None and vid.startswith('g') and '_' in vid:
+                    ignored.add(sid)      # a grandchild (invoked by a child): only its existence matters (teardown)
+                    continue
                 if vid is None or not vid.startswith('c') or '_' not in vid:
-                    # first records of a child are bm / be #root: attribute by elimination below
-                    cands = [i for k in insts for i in insts[k] if i.session is None]
-                    if len(cands) == 1:
-                        inst = cands[0]
-                    else:
-                        continue
-                else:
-                    k = int(vid[1:vid.index('_')])
-                    cands = [i for i in insts[k] if i.session is None]
-                    if not cands:
-                        bad("child session without a beforeInvoking: %s" % sid, pos)
-                    inst = cands[0]
+                    continue
+                k = int(vid[1:vid.index('_')])
+                cands = [i for i in insts[k] if i.session is None]
+                if not cands:
+                    bad("child session without a beforeInvoking: %s" % sid, pos)
+                inst = cands[0]
                 inst.session = sid
                 sessions[sid] = inst
             inst.last_pos = pos
@@ -307,14 +321,18 @@ def check_trace(case, tr, end_ts):
                 bad("events from child out of send order: %s after %s" % (name, order[last]), pe[0])
             seen[key] = True
             seen[(inst.session, '#last')] = idx
+    sentinel_fed = next((pos for pos, e in enumerate(tr) if e[0] == 'fed' and e[1] == 'recv zz.end'), None)
+    sentinel_done = any(pe[1] == 'zz.end' for pe in parent_events)
     for k in insts:
         for i in insts[k]:
             for name, pos, ts in i.sent:
                 before_cancel = i.bu_pos is None or pos < i.bu_pos
-                if before_cancel and ts < parent_end_ts - MARGIN_US and (i.session, name) not in seen and i.session:
+                # schedule independent: the send completed before the sentinel was handed to the parent, and the parent processed
+                # the sentinel: by FIFO it has processed the child's event
+                if before_cancel and sentinel_fed is not None and pos < sentinel_fed and sentinel_done and (i.session, name) not in seen and i.session:
                     bad("event sent by the child while active never processed by the parent: %s" % name, pos)
     # (4) parent -> child and autoforward
-    fed_names = set(n for _, n in script_for(case)) | ({"leave"} if case["forced"] == "run.finished" else set())
+    fed_names = set(n for _, n in script_for(case)) | ({"leave"} if case["forced"] == "run.finished" else set()) | {"zz.end"}
     for k in insts:
         mine = set(xnames_for(case, k))
         others = set(x for kk in insts if kk != k for x in xnames_for(case, kk))
@@ -379,11 +397,10 @@ def check_trace(case, tr, end_ts):
 
 def check_case(ctx, case):
     xml = parent_doc(case)
-    lines = script_for(case)
+    until = until_for(case)
+    # the sentinel: whatever was enqueued at the parent before it was fed has been processed once the parent processed it (FIFO)
+    lines = script_for(case) + [(until - 60, "zz.end")]
     script = "\n".join("%d recv %s" % (t, n) for t, n in lines)
-    last = max([t for t, _ in lines] + [0])
-    lifetimes = [c["D"] for c in case["children"] if c["mode"] == "late"] + [c["late"] for c in case["children"] if c["late"] is not None]
-    until = max([last] + lifetimes) + 160
     opts = "until=%d copymon" % until
     if case["forced"] == "run.finished":
         opts += " park=inv.run.finished parkms=80 arm=1 onpark=leave"
@@ -410,6 +427,8 @@ def check_case(ctx, case):
     labels = {'engine-' + case["engine"], 'children-%d' % len(case["children"])}
     for c in case["children"]:
         labels.add('child-' + c["mode"])
+        if c.get("grandchild"):
+            labels.add('nested-invoke')
     if case["leave"] is not None:
         labels.add('leave-' + case["leave"][1])
     if any(len(insts[k]) > 1 for k in insts):
@@ -437,6 +456,7 @@ child_s = st.fixed_dictionaries({
     "autoforward": st.booleans(),
     "finalize": st.booleans(),
     "echo": st.sampled_from([True, True, False]),
+    "grandchild": st.sampled_from([False, False, True]),
 })
 case_s = st.fixed_dictionaries({
     "engine": st.sampled_from(["large", "fast"]),
